@@ -606,7 +606,7 @@ def oracle(sc, impl):
                 return "op %d: opened path leaves the HTTP directory: <dir>%r" % (i, unhx(p[1:]))
         if d["real"] == "out":
             return "op %d: an opened path resolves (realpath) outside the HTTP directory" % i
-        if int(d["wait"]) > (100 if d["conn"] == "handed" else 0):
+        if int(d["wait"]) > (100 if (d["conn"] == "handed" or proxy) else 0):   # 100 ms = WebSocket probe of a hand-over
             return "op %d: serving the HTTP request waited %s ms in select" % (i, d["wait"])
         if d["conn"] == "handed" and not proxy:
             return "op %d: connection handed to the RFB server although proxy support is off" % i
@@ -904,6 +904,7 @@ def _run(ctx, env):
             f["origin"] = sc.get("origin")
             f2 = shrink(ctx, sc, h, d, f, env)
             f2.pop("impl_all", None)
+            annotate_crash(f2)
             f2["origin"] = sc.get("origin")
             tag_finding(f2)
             fails.append(f2)
@@ -935,6 +936,20 @@ def _run(ctx, env):
         ],
         "trusted_extra": ["tools/consts/c20.py: anchored regular expressions on httpd.c (function-local sizes and literals)"],
     }
+
+
+def annotate_crash(f):
+    m = re.search(r"harness exit (-?\d+)", f.get("what", "")) if f.get("kind") == "crash" else None
+    if m and int(m.group(1)) < 0:
+        sig = -int(m.group(1))
+        note = "the server process was killed by signal %d" % sig
+        if sig == 13:
+            note += (" (SIGPIPE: a peer went away while the reply was written and the process does not ignore SIGPIPE"
+                     + ("; the `dir` op had reported sigpipe=dfl" if any("sigpipe=dfl" in x for x in f.get("impl", [])) else "")
+                     + ")")
+        f["detail"] = note + ("\n" + f["detail"] if f.get("detail") else "")
+    elif m and int(m.group(1)) == 4:
+        f["detail"] = "watchdog: the server did not return from one HTTP request within 25 s\n" + (f.get("detail") or "")
 
 
 def tag_finding(f):
